@@ -6,6 +6,7 @@ mod c11;
 mod c14;
 mod store;
 mod c01;
+mod c03;
 
 fn main() {
     std::panic::set_hook(Box::new(|_| {}));
@@ -13,6 +14,7 @@ fn main() {
     match args.prop.as_str() {
         "C14" => c14::run(&args),
         "C01" => c01::run(&args),
+        "C03" => c03::run(&args),
         "C11" => c11::run(&args),
         "C16" => c16::run(&args),
         "C05" => c05::run(&args),
